@@ -229,6 +229,79 @@ def refused_appends():
     return n, fails
 
 
+def header_fields():
+    """the batch-level fields of a v2 batch (what the isolation filter, the idempotence logic and the fetcher read): both
+    decoders must report exactly what the builder was given, over the whole range of each field"""
+    fails, n = [], 0
+    I = cc.impls()
+    pids = [-1, 0, 1, 2 ** 31 - 1, 2 ** 31, 2 ** 32 + 7, 2 ** 40 + 1000, 2 ** 63 - 1]
+    epochs = [-1, 0, 1, 2 ** 15 - 1]
+    seqs = [-1, 0, 2 ** 31 - 1]
+    for enc in ("py", "c"):
+        for codec in (0, 1):
+            for pid in pids:
+                for epoch in epochs:
+                    for seq in seqs:
+                        for txn in (0, 1):
+                            b = I[enc]["v2b"](magic=2, compression_type=codec, is_transactional=txn, producer_id=pid,
+                                              producer_epoch=epoch, base_sequence=seq, batch_size=1 << 20)
+                            b.append(0, 1000, b"k", b"v", [])
+                            b.append(1, 1001, None, b"w", [])
+                            raw = bytearray(b.build())
+                            raw[0:8] = struct.pack(">q", 2 ** 40 + 5)          # the broker assigns the base offset (outside the crc)
+                            want = {"base_offset": 2 ** 40 + 5, "producer_id": pid, "producer_epoch": epoch, "base_sequence": seq,
+                                    "is_transactional": bool(txn), "is_control_batch": False, "next_offset": 2 ** 40 + 7,
+                                    "offsets": [2 ** 40 + 5, 2 ** 40 + 6]}
+                            for dec in ("py", "c"):
+                                n += 1
+                                try:
+                                    bt = I[dec]["mem"](bytes(raw)).next_batch()
+                                    got = {k: getattr(bt, k) for k in want if k != "offsets"}
+                                    got["is_transactional"], got["is_control_batch"] = bool(got["is_transactional"]), bool(got["is_control_batch"])
+                                    got["offsets"] = [r.offset for r in bt]
+                                except Exception as e:
+                                    got = "raised %r" % (e,)
+                                if got != want:
+                                    fails.append({"clause": "v2-header-fields", "encoder": enc, "decoder": dec, "codec": codec,
+                                                  "got": repr(got), "want": repr(want)})
+                                    if len(fails) >= 10:
+                                        return n, fails
+    return n, fails
+
+
+def sparse_inner_offsets():
+    """a compressed v1 message set whose inner messages do not carry the dense relative offsets 0..n-1 (a compacted topic:
+    inner messages were removed, the others kept their offsets; the wrapper carries the absolute offset of the LAST inner
+    message): absolute offset = wrapper offset - last inner offset + inner offset, for both decoders (Kafka message format
+    v1; for v0 the inner offsets are absolute already)"""
+    import gzip
+    import zlib
+    fails, n = [], 0
+    I = cc.impls()
+
+    def msg(magic, key, value, offset, attrs=0):
+        body = struct.pack(">bb", magic, attrs) + (struct.pack(">q", 1000) if magic else b"")
+        body += struct.pack(">i", -1 if key is None else len(key)) + (key or b"")
+        body += struct.pack(">i", len(value)) + value
+        m = struct.pack(">I", zlib.crc32(body) & 0xffffffff) + body
+        return struct.pack(">qi", offset, len(m)) + m
+    for rel in ([0, 1, 2], [0, 1, 4], [2, 5], [7], [0, 3], [1, 2, 3, 9]):
+        for wrapper_offset in (rel[-1], 104, 10 ** 12):
+            inner = b"".join(msg(1, b"k", b"v%d" % r, r) for r in rel)
+            data = msg(1, None, gzip.compress(inner), wrapper_offset, attrs=1)
+            want = [wrapper_offset - rel[-1] + r for r in rel]
+            for dec in ("py", "c"):
+                n += 1
+                try:
+                    got = [r.offset for r in I[dec]["mem"](data).next_batch()]
+                except Exception as e:
+                    got = "raised %r" % (e,)
+                if got != want:
+                    fails.append({"clause": "v1-relative-offsets", "decoder": dec, "inner_offsets": rel, "wrapper_offset": wrapper_offset,
+                                  "got": repr(got), "want": repr(want)})
+    return n, fails
+
+
 def main():
     ap = argparse.ArgumentParser()
     ap.add_argument("--tier", default="quick")
@@ -251,6 +324,17 @@ def main():
           "bound": "compressed v1 wrappers (every codec available) built by both encoders, with and without the LogAppendTime bit, "
                    "decoded by both decoders: inner timestamps and timestamp types per the v1 message format",
           "failures": fails, "replay": {"script": REPLAY}})
+    n, fails = header_fields()
+    emit({"name": "codec-v2-header-field-ranges", "exhaustive": True, "cases": n, "distinct_nontrivial": n,
+          "bound": "v2 batches from both builders (plain, gzip) for producer ids {-1, 0, 1, 2^31-1, 2^31, 2^32+7, 2^40+1000, 2^63-1} x "
+                   "epochs {-1, 0, 1, 2^15-1} x base sequences {-1, 0, 2^31-1} x transactional flag, base offset 2^40+5: both "
+                   "decoders report the batch-level fields and record offsets exactly",
+          "failures": fails, "replay": {"script": REPLAY_FIELDS}})
+    n, fails = sparse_inner_offsets()
+    emit({"name": "codec-v1-sparse-inner-offsets", "exhaustive": True, "cases": n, "distinct_nontrivial": n,
+          "bound": "gzip v1 wrappers around inner messages with relative offsets [0,1,2] [0,1,4] [2,5] [7] [0,3] [1,2,3,9], wrapper "
+                   "offset = last inner offset / 104 / 10^12: both decoders, absolute offsets per the v1 message format",
+          "failures": fails, "replay": {"script": REPLAY_FIELDS}})
     n, fails = refused_appends()
     emit({"name": "codec-refused-appends", "exhaustive": True, "cases": n, "distinct_nontrivial": n,
           "bound": "magic 0/1/2 (plain, gzip for 1/2) x both builders x 1..3 records that fill batch_size exactly, followed by three "
@@ -262,6 +346,16 @@ def main():
           "bound": "v2 builders of both implementations over the record sets: size() equals the bytes built, size_in_bytes is an upper "
                    "bound of the growth, batch_size equal to / one below the bytes produced accepts / refuses the last record",
           "failures": fails, "replay": {"script": REPLAY}})
+
+
+REPLAY_FIELDS = '''
+import sys
+sys.path.insert(0, "/verif")
+from bounded import C09
+n1, f1 = C09.header_fields()
+n2, f2 = C09.sparse_inner_offsets()
+VIOLATED = bool(f1 or f2); DETAIL = "%d of %d decodes differ from what was encoded; first: %r" % (len(f1) + len(f2), n1 + n2, (f1 + f2)[:1])
+'''
 
 
 REPLAY = '''
